@@ -287,6 +287,16 @@ def run(ctx):
     wm_ok, wm_why = whole_message_ast("pgcat::query_router::QueryRouter::parse")
     r3.check(wm_ok, "plugins-see-the-whole-message", "QueryRouter::parse returns the AST of the whole message (sqlparser's whole-input entry point)",
              "the AST handed to the plugins need not cover the message: %s - a listed table (or an intercepted query) in the part that was not parsed gets `Allow` and is forwarded" % wm_why)
+    # which plugins run is what the configuration in force says - also after a reload that changes only the global [plugins] section, which the pools without
+    # a section of their own inherit: the inherited section is part of the identity from_config compares, or the pool (and its plugins) is kept as it was (D66)
+    from common import pool_identity_gap
+    pig = pool_identity_gap(F)
+    if pig is None:
+        r3.missing("from_config / ConnectionPool.config_hash")
+    else:
+        r3.check("plugins" in pig[0] and "plugins" in pig[1], "inherited-plugins-part-of-the-pool-identity", "the global [plugins] section a pool inherits is part of the identity a reload compares",
+                 "the global [plugins] section is read when a pool is built but is not part of the identity a reload compares: switching table_access on (or off) for all pools in the file and reloading changes CONFIG "
+                 "and leaves every pool with the plugins it had - listed tables stay readable (or stay blocked with `plugins disabled`)")
     r4 = ctx.rule("C19-R4", "table_access compares the last identifier of the relation, folded to lower case unless quoted — not the printed ObjectName", floor=3)
     ta = ctx.body(TA_RUN, r4)
     if ta:
@@ -480,6 +490,20 @@ def run(ctx):
                      why + ": `Parse(s1, denied) Sync` then `Bind(s1) Execute Sync` makes ensure_prepared_statement_is_on_server send and run the denied statement",
                      "bb%d of handle" % sw.block)
 
+    # what `forgotten` means: the names the batch registered are removed - by the key they were inserted under (the clause is C08-R4's; D63: a look-up by the
+    # rewritten name removed nothing, and `Parse(s1 = SELECT * FROM listed) Sync` (refused) followed by `Bind(s1) Execute Sync` ran the refused statement)
+    from common import refused_batch_forget_finding
+    HM19 = "re:^std::collections::hash::map::HashMap::.*(remove|retain)$"
+    nfg = 0
+    for c in F.all_calls(HM19):
+        if not c.body.name.startswith("pgcat::client::Client::forget_buffered_prepared_statements") or not c.args:
+            continue
+        if ".prepared_statements" not in {p_ for o in origins(c.body, c.args[0]) if o.kind in ("place", "param") for p_ in o.proj}:
+            continue
+        nfg += 1
+        okf_, okm_, fm_ = refused_batch_forget_finding(F, c, "re:^std::collections::hash::map::HashMap::")
+        r6.check(okf_, "forget-removes-what-the-batch-registered", okm_, fm_, c.where())
+    r6.check(nfg >= 1, "forget-site", "forget_buffered_prepared_statements removes from the client's name map", "forget_buffered_prepared_statements no longer removes anything from Client.prepared_statements")
     # ... and so is any other discard of a buffered batch (D26): the statements the batch prepared and a verdict pending on it go with it.
     # A batch that was discarded because its Sync could not get a server must not leave an intercepted/denied statement remembered.
     if h:
